@@ -7,7 +7,7 @@ seed=${1:-0}; jobs=${2:-4}
 list=$(mktemp)
 for d in seeded/C*; do
   id=$(basename $d); chk=$(echo $id | cut -d- -f1)
-  if [ -n "${FILTER:-}" ] && ! echo "$id" | grep -Eq "$FILTER"; then continue; fi
+  if [ -n "${FILTER:-}" ] && ! echo "$id" | grep -Eq -- "$FILTER"; then continue; fi
   if grep -q judged_outside_the_statement $d/meta.json 2>/dev/null; then echo "seeded $id: not claimed (outside the statement, see meta.json)"; continue; fi
   echo "$d/patch.diff $chk $id" >> $list
 done
